@@ -171,6 +171,14 @@ func (s *DeleteStmt) Validate(ctx *CheckCtx) error {
 }
 
 func (s *SelectStmt) ValidateFields(ctx *CheckCtx) error {
+	// A select field that is just the name of another select field shows that field's value
+	for i, f := range s.Fields {
+		if name, ok := f.(*NameExpr); ok {
+			if nexpr, have := ctx.GetNamedExpr(name.Data); have && nexpr != f {
+				s.Fields[i] = &FieldReferenceExpr{Name: name, FieldExpr: nexpr}
+			}
+		}
+	}
 	for _, f := range s.Fields {
 		if err := s.validateField(f, ctx); err != nil {
 			return err
